@@ -13,7 +13,7 @@
 From Coq Require Import List ZArith NArith Bool.
 Import ListNotations.
 Require Import Gram.Model.Term Gram.Model.ParserPost Gram.Proofs.ReassocProofs.
-Require Gram.Proofs.ContentProofs Gram.Proofs.CompleteProofs.
+Require Gram.Proofs.ContentProofs Gram.Proofs.CompleteProofs Gram.Proofs.Unambiguous Gram.Proofs.TreeDerivation.
 Require Import Gram.Model.Token Gram.Model.Grammar Gram.Gen.ParserSkeleton Gram.Gen.GrammarY Gram.Model.Parser Gram.Proofs.ParserProofs Gram.Proofs.SoundProofs.
 
 Theorem C07_skeleton_matches_grammar : forallb compat_nt all_nts = true.
@@ -184,4 +184,44 @@ Theorem C07_sentence_implies_accepted : forall toks memo, derives Term (map pk t
 Proof. exact CompleteProofs.parse_complete_memo. Qed.
 Check C07_sentence_implies_accepted : forall toks memo, derives Term (map pk toks) -> exists t, fst (fst (parse_stage1 toks memo)) = S1Tree t.
 Print Assumptions C07_sentence_implies_accepted.
+
+
+(* THE GRAMMAR IS UNAMBIGUOUS AND THE PARSER BUILDS THE DERIVATION (Proofs/Unambiguous.v, TreeDerivation.v). Derivation trees
+   as data (`dtree`, every production and unit production a node); two well-formed trees with the same root and the same
+   yield are EQUAL, for every nonterminal (the tree-building ordered-choice semantics `pegT` is deterministic and builds
+   every well-formed tree). For an accepted token list the raw tree of the parser model is the image of THE derivation
+   tree of its token kinds (unit productions forgotten, parentheses as the group flag, names and literal values from the
+   tokens), every token consumed, and the final tree is that derivation with application, `*` `/` and `+` `-` chains
+   re-associated to the left and parenthesised nodes kept as single operands. With C07_accepted_iff_sentence this is the
+   whole property as a theorem of the model. *)
+Theorem C07_grammar_unambiguous : forall d1 d2, Unambiguous.dt_ok d1 -> Unambiguous.dt_ok d2 -> Unambiguous.root d1 = Unambiguous.root d2 ->
+  Unambiguous.dyield d1 = Unambiguous.dyield d2 -> d1 = d2.
+Proof. exact Unambiguous.grammar_unambiguous. Qed.
+Check C07_grammar_unambiguous : forall d1 d2, Unambiguous.dt_ok d1 -> Unambiguous.dt_ok d2 -> Unambiguous.root d1 = Unambiguous.root d2 ->
+  Unambiguous.dyield d1 = Unambiguous.dyield d2 -> d1 = d2.
+Print Assumptions C07_grammar_unambiguous.
+
+Theorem C07_derives_iff_tree : forall n w, derives n w <-> exists d, Unambiguous.dt_ok d /\ Unambiguous.root d = n /\ Unambiguous.dyield d = w.
+Proof. exact Unambiguous.derives_iff_tree. Qed.
+Check C07_derives_iff_tree : forall n w, derives n w <-> exists d, Unambiguous.dt_ok d /\ Unambiguous.root d = n /\ Unambiguous.dyield d = w.
+Print Assumptions C07_derives_iff_tree.
+
+Theorem C07_tree_is_the_derivation : forall toks memo t m s,
+  parse_stage1 toks memo = (S1Tree t, m, s) ->
+  exists d,
+    (Unambiguous.dt_ok d /\ Unambiguous.root d = Term /\ Unambiguous.dyield d = map pk toks) /\
+    (forall d', Unambiguous.dt_ok d' -> Unambiguous.root d' = Term -> Unambiguous.dyield d' = map pk toks -> d' = d) /\
+    TreeDerivation.tod (tokmap_of toks) d 0%N = (gstrip t, N.of_nat (length toks)) /\
+    gstrip t = TreeDerivation.gtree_of toks d /\
+    strip (reassociate t) = spec_all (TreeDerivation.gtree_of toks d).
+Proof. exact TreeDerivation.parser_builds_derivation. Qed.
+Check C07_tree_is_the_derivation : forall toks memo t m s,
+  parse_stage1 toks memo = (S1Tree t, m, s) ->
+  exists d,
+    (Unambiguous.dt_ok d /\ Unambiguous.root d = Term /\ Unambiguous.dyield d = map pk toks) /\
+    (forall d', Unambiguous.dt_ok d' -> Unambiguous.root d' = Term -> Unambiguous.dyield d' = map pk toks -> d' = d) /\
+    TreeDerivation.tod (tokmap_of toks) d 0%N = (gstrip t, N.of_nat (length toks)) /\
+    gstrip t = TreeDerivation.gtree_of toks d /\
+    strip (reassociate t) = spec_all (TreeDerivation.gtree_of toks d).
+Print Assumptions C07_tree_is_the_derivation.
 
